@@ -47,6 +47,10 @@ INVALID_TEXTS = [
     ("two base classes", "class A : B, C { };"),
     ("argument without a name", "void f(int);"),
     ("default without a value", "void f(int a = );"),
+    ("constructor name differs from the class, class has a base", "class B { }; class A : B { C(); };"),
+    ("constructor-shaped member (return type lost) in a derived class", "class B { }; virtual class A : B { A(); scale(double f); };"),
+    ("constructor name differs, templated base", "template<T> class B { }; class A : B<double> { Other(int a); };"),
+    ("constructor name differs in a class template with a base", "class B { }; template<T = {double}> class A : B { A2(T t); };"),
     ("template header on an operator", "class A { template<T = {double}> A operator+(const A& o) const; };"),
     ("template header on a unary operator", "class A { template<T> A operator-() const; };"),
     ("template header on a dunder method", "class A { template<T> __len__(); };"),
